@@ -133,10 +133,7 @@ func mergeTreeText(ch []any) []any {
 
 func c14NewDoc() *document.Document {
 	d := document.New(key.Key("c14-doc"))
-	go func() {
-		for range d.Events() {
-		}
-	}()
+	drainEvents(d.Events())
 	_ = d.Update(func(r *yjson.Object, p *document.Presence) error {
 		for _, op := range []string{"init.o", "init.a", "init.t", "init.c", "init.tr"} {
 			hist.Ops[op].Apply(r, p, 0)
@@ -150,6 +147,7 @@ func c14NewDoc() *document.Document {
 // c14Eval runs edits then the undo/redo word; exact=true compares contents
 // with the recorded ones, otherwise only "never fails, clone==root".
 func c14Eval(c *c14case, exact bool) (diff string, applicable bool) {
+	defer releaseDocs()
 	d := c14NewDoc()
 	contents := []string{normalise(d.Marshal())}
 	for i, op := range c.Edits {
